@@ -398,7 +398,7 @@ def walletStep (d : DState) (C : Crypto) (args : List String) : DState × String
   | ["new"] => ({ d with wallet := Wallet.empty }, "ok")
   | ["addkey", pk, sk] => ({ d with wallet := w.addKey (hx pk) (hx sk) }, "ok")
   | ["handout", ann, choice] =>
-    (match w.handOut ann choice.toNat! with
+    (match w.handOut (if ann == "EMPTY" then "" else ann) choice.toNat! with
       | some (w', pk) => ({ d with wallet := w' }, "ok " ++ toHex pk)
       | none => (d, "err"))
   | ["restore", pk] =>
